@@ -28,9 +28,9 @@ from dataclasses import dataclass, field
 from typing import Any, Callable, Iterable, Optional
 
 ROOT = os.path.dirname(os.path.dirname(os.path.abspath(__file__)))
-EVIDENCE_DIR = os.path.join(ROOT, "evidence")
+EVIDENCE_DIR = os.environ.get("VERIF_EVIDENCE_DIR") or os.path.join(ROOT, "evidence")
 REPLAY_DIR = os.path.join(ROOT, "replays")
-OUT_DIR = os.path.join(ROOT, "out")
+OUT_DIR = os.environ.get("VERIF_OUT_DIR") or os.path.join(ROOT, "out")
 KNOWN_FILE = os.path.join(ROOT, "known_findings.json")
 EVIDENCE_SCHEMA = os.path.join(ROOT, "harness", "EVIDENCE.schema.json")
 
